@@ -232,7 +232,6 @@ func c08Settle(r *sysRun, busy bool, final bool) {
 	}
 	mc := plan.Match
 	mc.Sort = sortNow
-	mc.forcePos = true
 	mc.nth = r.t.nthCurrent
 	// effective query: the search(...) override while one is active; the frozen query while search is disabled
 	effQuery := st.Query
@@ -251,7 +250,8 @@ func c08Settle(r *sysRun, busy bool, final bool) {
 	if len(mc.nth) > 0 {
 		c.count("probe.nth_changed", 1)
 	}
-	want := indicesOf(freshFilter(items, effQuery, mc))
+	wantRes := freshFilter(items, effQuery, mc)
+	want := indicesOf(wantRes)
 	c.count("settle.checked", 1)
 	if len(want) > 0 {
 		c.count("nontrivial", 1)
@@ -262,7 +262,23 @@ func c08Settle(r *sysRun, busy bool, final bool) {
 		if firstDiff(sortedCopy(st.Matches), sortedCopy(want)) >= 0 {
 			class = "c08.results"
 		}
-		c.violate(class, "after settling the match list has %d entries, a fresh filter gives %d; first difference at %d: shown …%v… fresh …%v… (%s)\n%s", len(st.Matches), len(want), d, around(st.Matches, d), around(want, d), cfg, blockedStacks())
+		// rank keys of the first item that is out of place, as fzf holds them and as a fresh evaluation gives them
+		keys := ""
+		if d < len(st.Matches) && r.t.merger != nil && d < r.t.merger.Length() {
+			got := r.t.merger.Get(d)
+			keys = fmt.Sprintf("; item %d is held with rank key %v", got.item.Index(), got.points)
+			for _, w := range wantRes {
+				if w.Index == got.item.Index() {
+					keys += fmt.Sprintf(", a fresh evaluation gives %v", w.Points)
+				}
+			}
+			if pat := r.t.merger.pattern; pat != nil {
+				if res, offs, _ := pat.MatchItem(got.item, true, nil); res != nil {
+					keys += fmt.Sprintf(", fzf's own pattern on its own item now gives %v offsets %v (text %q, forward=%v withPos=%v)", res.points, offs, got.item.text.ToString(), pat.forward, pat.withPos)
+				}
+			}
+		}
+		c.violate(class, "after settling the match list has %d entries, a fresh filter gives %d; first difference at %d: shown …%v… fresh …%v…%s (%s)\n%s", len(st.Matches), len(want), d, around(st.Matches, d), around(want, d), keys, cfg, blockedStacks())
 	}
 	if st.Count != total {
 		c.violate("c08.total", "total count shown %d, loaded input has %d records (%s)", st.Count, total, cfg)
